@@ -385,6 +385,14 @@ def run_M(prop, st, tier, seed, work):
         os.makedirs(REPLAY_DIR, exist_ok=True)
         dst = os.path.join(REPLAY_DIR, "%s-M-seed%d-%d.txt" % (st["stage"].replace(".", "_"), seed, os.getpid()))
         open(dst, "w").write(text[-20000:])
+        first_span = re.search(r"error: Undefined Behavior[^\n]*\n\s*--> ([^\n]+)", text)
+        if (ub or race) and first_span and ("/.cargo/registry/" in first_span.group(1) or "/rustlib/" in first_span.group(1)):
+            # the offending access is inside a dependency / std, not in repository code: noise by the
+            # rule of DESIGN.md 2.3 (same filter as for TSan), reported as inconclusive
+            res["inconclusive"] = 1
+            res["inconclusive_notes"] = ["Miri report located in a dependency (%s): %s" % (first_span.group(1).strip()[:120], (ub or race).group(0)[:160])]
+            res["status"] = "inconclusive"
+            return res
         if ub or race:
             frame = _first_repo_frame(text[text.find("error: Undefined Behavior"):])
             sig = "miri:%s:%s" % ("data-race" if race else "ub", frame)
